@@ -431,6 +431,25 @@ def run (ctx):
       ctx.ob('R-EFFECT', smod.short + ':' + f_.name, "the handler that forgets the remembered bits is subscribed in every mode", always, "`%s` on every path of %s" % (norm(c_)[:50], fn_.name) if always else
              "`%s` runs only under %s: in the other modes nothing forgets _prev[dpid] when a switch reconnects (all its ports flooding again) - the port-mods that would block its non-tree ports are skipped as already sent, and a flooded frame loops"
              % (norm(c_)[:60], [x for x in q.fact_strs(gr_, rn_)][-2:] if rn_ is not None else '?'), (smod, c_), 'D3')
+  # every announced link change recomputes the tree: discovery reports the two directions of a link one at a time, so after the
+  # first direction both ends are (rightly) blocked - skipping the event for the second direction because "both ports are blocked
+  # anyway" leaves the only link between two parts of the network out of the tree for good
+  hle = smod.funcs.get('_handle_LinkEvent') or smod.funcs.get('_handle_openflow_discovery_LinkEvent')
+  if hle is None: raise AnalysisError("spanning_tree._handle_LinkEvent vanished")
+  ctx.analysed(hle); gh_ = q.cfg_of(hle)
+  def _updates (c_, depth=0):
+    if call_name(c_) == '_update_tree': return True
+    callee_ = smod.funcs.get(call_name(c_)) if isinstance(c_.func, ast.Name) else None
+    if callee_ is None or depth > 2 or callee_ is hle: return False
+    gc_ = q.cfg_of(callee_)
+    un_ = [n_ for n_ in gc_.nodes if any(_updates(c2, depth + 1) for c2 in q.node_calls(n_))]
+    return bool(un_) and gc_.postdominates(un_, gc_.entry)
+  upd_ = [n_ for n_ in gh_.nodes if any(_updates(c_) for c_ in q.node_calls(n_))]
+  good = bool(upd_) and gh_.postdominates(upd_, gh_.entry)
+  skip_ = [n_ for n_ in gh_.nodes if n_.kind == 'return' and not any(gh_.dominates(u_, n_) for u_ in upd_)]
+  ctx.ob('R-EFFECT', hle, "every link event recomputes the tree", good, "_update_tree() on every path" if good else
+         "a path through the link-event handler ends without _update_tree() (%s): a link whose second direction is reported while both ends are still blocked never enters the tree, "
+         "and the ports of a link that went away are never re-enabled as host-facing" % ("return under %s" % q.fact_strs(gh_, skip_[0])[-2:] if skip_ else "no call on some path"), (smod, skip_[0].ast) if skip_ else hle, 'D3')
   g3 = q.cfg_of(ut)
   # decided by evaluation over (port in tree?, edge port?): the NO_FLOOD bit sent must be clear iff the port is a tree
   # port or an edge port; the port-mod is reached exactly when the remembered bit differs
